@@ -139,6 +139,31 @@ def run(ctx) -> None:
             r2 = I.call_func(y2r.find_method("produce_regex"), [], {}, y, None, None)
             return r2 if Ic.expr_of(r1) != Ic.expr_of(r2) else r1
         return {(p.kind, Ic.expr_of(p.value) if p.kind == "return" else repr(p.exc)[:80]) for p in Ic.explore(thunk)}
+    # H4: a rule whose config is rejected (or tolerated) is treated as when compiled alone - nothing of the previous rule's
+    # config stays in force behind it
+    from ._matchrules import compile_sequence_equals_fresh
+    good = {"config": {"valid_addr_range": {"min": Sym("MIN"), "max": Sym("MAX")}, "sections": [".plt"], "style": "att",
+                       "mnemonics-full-match": True, "operands-full-match": True}, "pattern": [{Sym("M1"): [Sym("O1")]}]}
+    pat = [{"call": ["valid_addr"]}, {Sym("M2"): [Sym("O2")]}]
+    bads = [("range with an integer bound", {"valid_addr_range": {"min": 36864, "max": Sym("MAX2")}}),
+            ("range without max", {"valid_addr_range": {"min": Sym("MIN2")}}),
+            ("range that is a string", {"valid_addr_range": "0x1000-0x2000"}),
+            ("sections that is a string", {"sections": ".text"}),
+            ("sections with a non-string", {"sections": [".text", 5]}),
+            ("unknown style", {"style": "masm"}),
+            ("flag that is a string", {"mnemonics-full-match": "yes"})]
+    compile_sequence_equals_fresh(ctx, "C14.H4.rejected-config-leaves-nothing-behind",
+                                  [(f"rule with a {lab} after a fully configured rule", [good, {"config": c, "pattern": pat}]) for lab, c in bads])
+    from ..matchflow import last_op_outcomes
+    good_op = {"config": good["config"], "file_type": "assembly"}
+    for lab, c in bads:
+        for ft in ("assembly", "binary"):
+            bad_op = {"config": c, "file_type": ft, "pattern": pat}
+            fresh, seq = last_op_outcomes(Im, [bad_op]), last_op_outcomes(Im, [good_op, bad_op])
+            diff = sorted(fresh ^ seq, key=str)
+            ctx.check(not diff and bool(fresh), "C14.H4.rejected-config-leaves-nothing-behind",
+                      f"{ft} operation with a {lab} after a fully configured operation", (str(diff[0]) if diff else "no outcome")[:300],
+                      "the operation ends (error, or config values / observers / argv / regex calls / result) as it does in a fresh process")
     timesdoc = {"pattern": [{Sym("M1"): [Sym("O1")], "times": 2}, {"$or": [Sym("M2"), Sym("M3")], "times": {"min": 0, "max": 3}},
                             {Sym("M4"): {"times": 3}}, {Sym("M5"): ["&x"]}, {Sym("M6"): ["&x"]}]}
     for label, d in (("times/captures rule", timesdoc), ("capture rule", docsB[0])):
